@@ -13,6 +13,9 @@ package checks
 //                     NAME as a field of the embedded claims (other key)
 //   nested-p2         an extension of an extension (two levels of embedding,
 //                     one extra claim per level)
+//   lookalike-key-p2  own claims whose CBOR keys start with the digits of the
+//                     profile keys (2650, -750001), declared around the
+//                     embedded claims
 //
 // Each style knows how to realise a model value, what its CBOR must look like
 // on the wire (read independently), and how to read its own claims back.
@@ -89,6 +92,42 @@ func (nestedP2Profile) GetClaims() psatoken.IClaims {
 	return &NestedP2Claims{ExtP2Claims: *(newExtP2ClaimsNamed(NestedP2Name).(*ExtP2Claims))}
 }
 
+// ---- lookalike-key-p2: own claims whose CBOR keys merely START with the
+// digits of the profile keys (2650 / -750001), declared around the embedded
+// claims ----
+
+const RegionP2Name = "http://example.com/verif/region-on-p2"
+
+type RegionP2Claims struct {
+	Region *int64 `cbor:"2650,keyasint,omitempty" json:"region,omitempty"`
+	psatoken.P2Claims
+	Flags *int64 `cbor:"-750001,keyasint,omitempty" json:"flags,omitempty"`
+}
+
+func (o RegionP2Claims) MarshalCBOR() ([]byte, error) { return encoding.SerializeStructToCBOR(hem, &o) }
+func (o *RegionP2Claims) UnmarshalCBOR(data []byte) error {
+	return encoding.PopulateStructFromCBOR(hdm, data, o)
+}
+func (o RegionP2Claims) MarshalJSON() ([]byte, error) { return encoding.SerializeStructToJSON(&o) }
+func (o *RegionP2Claims) UnmarshalJSON(data []byte) error {
+	return encoding.PopulateStructFromJSON(data, o)
+}
+
+type regionP2Profile struct{}
+
+func (regionP2Profile) GetName() string { return RegionP2Name }
+func (regionP2Profile) GetClaims() psatoken.IClaims {
+	p := eat.Profile{}
+	if err := p.Set(RegionP2Name); err != nil {
+		panic(err)
+	}
+	return &RegionP2Claims{P2Claims: psatoken.P2Claims{
+		Profile:          &p,
+		SwComponents:     &psatoken.SwComponents[*psatoken.SwComponent]{},
+		CanonicalProfile: RegionP2Name,
+	}}
+}
+
 // ---- the table ----
 
 type extStyle struct {
@@ -110,6 +149,7 @@ var extStyles = []extStyle{
 	{"inherit-p2-oid", P2, InhP2OID, inheritP2Profile{}, nil, nil, true, true},
 	{"shadow-p2", P2, ShadowP2Name, shadowP2Profile{}, []int64{-75101}, []string{"vendor-boot-seed"}, true, true},
 	{"nested-p2", P2, NestedP2Name, nestedP2Profile{}, []int64{-75100, -75102}, []string{"timestamp", "serial"}, true, true},
+	{"lookalike-key-p2", P2, RegionP2Name, regionP2Profile{}, []int64{2650, -750001}, []string{"region", "flags"}, true, true},
 }
 
 func extStyleByLabel(l string) extStyle {
@@ -155,6 +195,8 @@ func extBase(c psatoken.IClaims) any {
 		return &e.P2Claims
 	case *NestedP2Claims:
 		return &e.P2Claims
+	case *RegionP2Claims:
+		return &e.P2Claims
 	case *psatoken.P1Claims, *psatoken.P2Claims:
 		return e
 	}
@@ -172,6 +214,8 @@ func extOwnPtrs(c psatoken.IClaims) []**int64 {
 		return []**int64{&e.BootSeed}
 	case *NestedP2Claims:
 		return []**int64{&e.Timestamp, &e.Serial}
+	case *RegionP2Claims:
+		return []**int64{&e.Region, &e.Flags}
 	}
 	return nil
 }
